@@ -3,12 +3,12 @@ CONSTANTS
   Maturity = 3
   Slates = {"s1"}
   Amounts = {1000}
-  NFund = 2
-  MaxH = 6
+  NFund = 1
+  MaxH = 5
   MaxLog = 2
   UseLate = FALSE
   UseTtl = FALSE
-  UseInvoice = TRUE
+  UseInvoice = FALSE
   UseAccounts = TRUE
   UseMineTo = TRUE
   UseCancelBySlate = FALSE
